@@ -1,18 +1,35 @@
 (* InstHist.v — the history machine is instantiated at the parameters extracted from /repo's
    current source; its side condition is the conjunction of the owning areas' conditions. *)
-From BigNum Require Import Base AddSub Div Bits Mul MulProofs Hist HistProofs Extracted
-  InstAddSub InstDiv InstBits InstPgr InstRadix.
+From BigNum Require Import Base BaseLemmas AddSub Div Bits Mul MulProofs MulProofs3 MulProofs5 RadixInst
+  Hist HistProofs Extracted InstAddSub InstDiv InstBits InstMul InstPgr InstRadix.
 
 Definition hist_extracted : hist_params :=
   mkHP Extracted.addsub Extracted.div Extracted.bits Extracted.mul
        Extracted.pgr_pow Extracted.pgr_gcd Extracted.pgr_roots Extracted.radix.
 
-Lemma mul_params_ok_hist : mul_ok Extracted.mul = true.
-Proof. vm_compute. reflexivity. Qed.
-
 Lemma hist_params_ok : hist_ok hist_extracted = true.
 Proof.
   unfold hist_ok, hist_extracted; cbn [hp_as hp_div hp_bits hp_mul hp_pow hp_gcd hp_roots hp_radix].
-  rewrite addsub_params_ok, div_params_ok, bits_params_ok, mul_params_ok_hist,
+  rewrite addsub_params_ok, div_params_ok, bits_params_ok, mul_params_ok,
     pow_params_ok, gcd_params_ok, roots_params_ok, radix_params_ok. reflexivity.
 Qed.
+
+(** The two statements of property C02 that the multiplying operations (`*=`, pow, cbrt,
+    nth_root, lcm) and the text of long values rest on: proved in area `mul`
+    (MulProofs3.scalar_mul_spec, MulProofs5.mul3_spec).  With them [op_ok] is [op_wf] and
+    [text_ok] holds of every object: nothing in props/C04.v is relative to C02 any more. *)
+Lemma mul_statements_hold : mul_statements.
+Proof.
+  split.
+  - intros a s Ca Hs. apply scalar_mul_spec; [exact Ca|exact Hs].
+  - intros mp x y Hp Cx Cy. apply mul3_spec; [exact Hp|apply Cx|apply Cy].
+Qed.
+
+Lemma op_ok_of_wf o : op_wf o -> op_ok o.
+Proof. intros W. split; [exact W|]. intros _. exact mul_statements_hold. Qed.
+
+Lemma ops_ok_of_wf ops : Forall op_wf ops -> Forall op_ok ops.
+Proof. exact (ops_ok_mul ops mul_statements_hold). Qed.
+
+Lemma text_ok_holds s : text_ok s.
+Proof. right. exact mul_statements_hold. Qed.
